@@ -342,6 +342,87 @@ def parseScalar (sch : Schema) (orc : Oracle) (k : Kind) (text : Bytes) : Except
           if e.values.any (fun nv => nv.2 == n) then .ok (.int n) else .error .invalidArgument
   | .message _ => .error .fault              -- not a scalar kind
 
+/-! ### google.protobuf.Duration: `time.ParseDuration` + `durationpb.New` -/
+
+def nSeconds : Name := ascii "seconds"
+def nNanos : Name := ascii "nanos"
+
+/-- `unitMap` of package time: nanoseconds per unit, and the number of fraction digits up to which
+    `float64(f) * (float64(unit) / scale)` is exact integer arithmetic (unit / 10^k is an integer, every operand and the
+    product is below 2^53). With more digits the Go code rounds through float64: outside the modelled domain. -/
+def durUnit (u : Bytes) : Option (Nat × Nat) :=
+  if u = [110, 115] then some (1, 0)                                   -- ns
+  else if u = [117, 115] || u = [194, 181, 115] || u = [206, 188, 115] then some (1000, 3)   -- us, µs (U+00B5), μs (U+03BC)
+  else if u = [109, 115] then some (1000000, 6)                         -- ms
+  else if u = [115] then some (1000000000, 9)                           -- s
+  else if u = [109] then some (60000000000, 10)                         -- m
+  else if u = [104] then some (3600000000000, 11)                       -- h
+  else none
+
+def isUnitByte (c : UInt8) : Bool := !(c == 46 || isDigit c)
+
+/-- the loop of `time.ParseDuration` over `([0-9]*(\.[0-9]*)?[a-z]+)+`, `d` = nanoseconds so far.
+    `none` = a fraction with more digits than the exact domain (see `durUnit`); `some none` = an error return. -/
+def durLoop : Nat → Bytes → Nat → Option (Option Nat)
+  | 0, _, _ => some none
+  | fuel + 1, s, d =>
+    match s with
+    | [] => some (some d)
+    | c :: _ =>
+      if !(c == 46 || isDigit c) then some none else
+      let ds := s.takeWhile isDigit          -- leadingInt
+      let s1 := s.dropWhile isDigit
+      let v := digitsVal 0 ds
+      if v > 2 ^ 63 then some none else      -- errLeadingInt
+      let fr : Bytes × Bytes := match s1 with
+        | 46 :: r => (r.takeWhile isDigit, r.dropWhile isDigit)     -- leadingFraction
+        | _ => ([], s1)
+      let fs := fr.1
+      let s2 := fr.2
+      if ds.isEmpty && fs.isEmpty then some none else              -- no digits (".s")
+      let u := s2.takeWhile isUnitByte
+      let s3 := s2.dropWhile isUnitByte
+      if u.isEmpty then some none else                              -- missing unit
+      match durUnit u with
+      | none => some none                                           -- unknown unit
+      | some (unit, maxk) =>
+        if v > 2 ^ 63 / unit then some none else                    -- overflow
+        let f := digitsVal 0 fs
+        if f > 0 && fs.length > maxk then none else                 -- float64 rounding: not modelled
+        let v2 := v * unit + (if f > 0 then f * (unit / 10 ^ fs.length) else 0)
+        if v2 > 2 ^ 63 then some none else
+        if d + v2 > 2 ^ 63 then some none else
+        durLoop fuel s3 (d + v2)
+
+/-- `[-+]?` -/
+def durSign : Bytes → Bool × Bytes
+  | 45 :: r => (true, r)
+  | 43 :: r => (false, r)
+  | s => (false, s)
+
+/-- the sign and the final range check -/
+def durFinish (neg : Bool) : Option (Option Nat) → Option (Option Int)
+  | none => none
+  | some none => some none
+  | some (some d) =>
+    if neg then some (some (-(d : Int)))
+    else if d > 2 ^ 63 - 1 then some none
+    else some (some (d : Int))
+
+/-- `time.ParseDuration`: `none` = outside the modelled domain, `some none` = error, `some (some ns)`. -/
+def parseDurationGo (s : Bytes) : Option (Option Int) :=
+  if (durSign s).2 = [48] then some (some 0)
+  else if (durSign s).2 = [] then some none
+  else durFinish (durSign s).1 (durLoop ((durSign s).2.length + 1) (durSign s).2 0)
+
+/-- `durationpb.New(d)`: `secs := nanos / 1e9; nanos -= secs * 1e9` (Go division truncates toward zero); flat
+    entries, zero fields not populated -/
+def durationEntries (ns : Int) : Msg :=
+  let secs := Int.tdiv ns 1000000000
+  let nanos := Int.tmod ns 1000000000
+  (if secs = 0 then [] else [([nSeconds], Cell.single (.int secs))]) ++
+  (if nanos = 0 then [] else [([nNanos], Cell.single (.int nanos))])
+
 /-- `parseMessage`: flat entries of the resulting message, relative to it. -/
 def parseMessage (orc : Oracle) (ref : Name) (text : Bytes) : Except Err Msg :=
   if ref = wInt64 then (optToExcept (parseInt text 64)).map (fun i => wrapperEntries (.int i))
@@ -354,7 +435,17 @@ def parseMessage (orc : Oracle) (ref : Name) (text : Bytes) : Except Err Msg :=
   else if ref = wFieldMask then
     -- the whole value is checked, then split
     (if validUTF8 text then .ok [([nPaths], .list ((splitOnByte 44 text).map .bytes))] else .error .invalidArgument)
-  else if ref = wTimestamp || ref = wDuration || ref = wDouble || ref = wFloat || ref = wValue || ref = wStruct then
+  else if ref = wDuration then
+    match parseDurationGo text with
+    | some (some ns) => .ok (durationEntries ns)
+    | some none => .error .invalidArgument
+    | none =>
+      -- a fraction finer than the unit's exact range: Go rounds through float64 (post-library oracle)
+      match orc ref text with
+      | some (.msg _ es) => .ok es
+      | some .err => .error .invalidArgument
+      | _ => .error .fault
+  else if ref = wTimestamp || ref = wDouble || ref = wFloat || ref = wValue || ref = wStruct then
     match orc ref text with
     | some (.msg _ es) => .ok es
     | some .err => .error .invalidArgument
